@@ -219,7 +219,7 @@ def c19(run):
 
 
 PARSER_CFG = """CONSTANTS
-  Inputs <- MCInputs
+  Inputs <- AllInputs
   DevP2 <- DevP2Intended
   MaxLex = %d
   Emit_ = TRUE
@@ -238,7 +238,7 @@ def parser_model(run):
     # (the inputs are the initial states of the PlusCal machine, which TLC builds in one thread: 19^4 inputs of the small
     # alphabet and 33^3 of the full one did not finish within 25 - 40 minutes, so the thorough tier adds the full alphabet
     # at depth 2 to the quick tier's plan)
-    plan = [("small", 3)] if run.tier == "quick" else [("small", 3), ("all", 2)]
+    plan = [("small", 3), ("exprB", 3), ("exprA", 2)] if run.tier == "quick" else [("small", 3), ("all", 2), ("exprB", 4), ("exprA", 3)]
     sts = run.tlc_many([dict(module="MC_Parser", cfg=PARSER_CFG % (n, ls), name="MC_Parser_%s_%d" % (ls, n), timeout=6000, workers=8)
                         for ls, n in plan], parallel=2)
     for st in sts:
